@@ -489,9 +489,7 @@ Theorem C04_epub_unit_numbers :
 Proof.
   intros produces spine. unfold epub_units. split; [|split].
   - intros i k. exact (number_spine_spec produces spine 0%Z i k).
-  - intros i k H. apply number_spine_gt in H. apply Z.lt_le_incl in H. exact (Zlt_le_succ 0 k (number_spine_gt_aux H)) || idtac.
-    revert H. clear. intro H. destruct (Z.eq_dec k 0) as [->|N]; [|apply Z.le_succ_l in H; exact H]. exact (Z.le_trans _ _ _ H (Z.le_refl 0)) || idtac.
-    apply Z.le_succ_l. exact H.
+  - exact (epub_units_ge1 produces spine).
   - exact (number_spine_sorted produces spine 0%Z).
 Qed.
 Print Assumptions C04_epub_unit_numbers.
